@@ -441,6 +441,24 @@ func Plan(prop, tier string, seed uint64) []RunConfig {
 					Runners: RunnerSpec{Mode: "scripted", Seed: r.Uint64()}, ReadYield: 1, Note: "transient-source-error"})
 			}
 		}
+		// a polled device: small reads, every other Read returns (0, nil); more
+		// than a hundred empty reads accumulate within one sample
+		npoll := 4
+		if thorough {
+			npoll = 120
+		}
+		for _, w := range []string{WPeriodFast, WPowerOnFast} {
+			for i := 0; i < npoll; i++ {
+				W := workerChoices[r.Intn(len(workerChoices))]
+				k := 16
+				if Info(w).SampleBytes > 2500 {
+					k = []int{512, 700}[r.Intn(2)]
+				}
+				out = append(out, RunConfig{Prop: prop, Workflow: w, Workers: W, Policy: genPolicy(r, estSteps(w, W)),
+					Stream: prfStream(r), Chunk: ChunkSpec{Kind: "fixed", K: k, Empty: 2}, Fault: FaultSpec{Kind: "none"},
+					Runners: RunnerSpec{Mode: "scripted", Seed: r.Uint64()}, ReadYield: 5 + r.Intn(20), Note: "polled-device-empty-reads"})
+			}
+		}
 		nreal := 8
 		if thorough {
 			nreal = 600
@@ -526,6 +544,31 @@ func Plan(prop, tier string, seed uint64) []RunConfig {
 				}
 			}
 		}
+		// many earlier failing detections in the same process (whatever a
+		// failing run leaks - a semaphore slot, a goroutine, a registry entry -
+		// adds up): 72 aborted Fast runs, then the observed failing run
+		nhist := 3
+		if thorough {
+			nhist = 60
+		}
+		for i := 0; i < nhist; i++ {
+			w := []string{WPeriodFast, WPeriodFast, WPowerOnFast}[i%3]
+			wi := Info(w)
+			W := workerChoices[r.Intn(len(workerChoices))]
+			var pre []PreludeSpec
+			for k := 0; k < 72; k++ {
+				pw := []string{WPeriodFast, WPeriodFast, WPeriodFast, WPowerOnFast, WFactoryFast}[r.Intn(5)]
+				pi := Info(pw)
+				at := int64(r.Intn(3)) * int64(pi.SampleBytes)
+				if r.Intn(2) == 0 {
+					at += int64(r.Intn(pi.SampleBytes))
+				}
+				pre = append(pre, PreludeSpec{Workflow: pw, Stream: StreamSpec{Kind: "prf", Seed: r.Uint64()}, Fault: FaultSpec{Kind: []string{"eof", "custom", "partial"}[r.Intn(3)], At: at, Sticky: true}})
+			}
+			out = append(out, RunConfig{Prop: prop, Workflow: w, Workers: W, Policy: genPolicy(r, estSteps(w, W)),
+				Stream: prfStream(r), Chunk: ChunkSpec{Kind: "full"}, Fault: FaultSpec{Kind: "eof", At: int64(r.Intn(wi.Samples)) * int64(wi.SampleBytes), Sticky: true},
+				Runners: RunnerSpec{Mode: "scripted", Seed: r.Uint64()}, ReadYield: 1, Prelude: pre, Note: "after-72-failing-runs"})
+		}
 		// single-shot
 		// (beyond 4096: sizes at which an implementation may switch to another
 		// way of reading - 64 KiB, 1 MiB and above)
@@ -604,6 +647,46 @@ func Plan(prop, tier string, seed uint64) []RunConfig {
 					out = append(out, c)
 				}
 			}
+		}
+		// byte-at-a-time delivery of the 10^6-bit samples (more than 65536 Read
+		// calls per sample) and of large single-shot requests
+		ntiny := 2
+		if thorough {
+			ntiny = 24
+		}
+		for i := 0; i < ntiny; i++ {
+			w := []string{WPowerOn, WPowerOnFast, WFactory, WFactoryFast}[i%4]
+			if !thorough {
+				w = []string{WPowerOn, WPowerOnFast}[i%2]
+			}
+			W := workerChoices[r.Intn(len(workerChoices))]
+			scs := scenarios(w, r, false)
+			out = append(out, RunConfig{Prop: prop, Workflow: w, Workers: W, Policy: genPolicy(r, estSteps(w, W)), Stream: prfStream(r),
+				Chunk: ChunkSpec{Kind: "fixed", K: 1}, Fault: FaultSpec{Kind: "none"}, Runners: scs[0].spec, ReadYield: 997, Note: "byte-at-a-time"})
+		}
+		for _, nb := range []int{125000, 200000, 70000} {
+			for _, k := range []int{1, 2} {
+				out = append(out, RunConfig{Prop: prop, Workflow: WSingle, NumByte: nb, Workers: 1, Policy: simctl.Policy{Kind: "first"},
+					Stream: prfStream(r), Chunk: ChunkSpec{Kind: "fixed", K: k}, Fault: FaultSpec{Kind: "none"}, Runners: RunnerSpec{Mode: "scripted"}, ReadYield: 0, Note: "byte-at-a-time"})
+			}
+		}
+		// two single-shot detections overlapping in time, in a process that has
+		// done nothing else: the observed one gets its bytes in two or three
+		// bursts and the other one runs in between, on a stuck source
+		nover := 24
+		if thorough {
+			nover = 600
+		}
+		for i := 0; i < nover; i++ {
+			nb := 64 + r.Intn(4033)
+			cn := []int{16, nb / 2, nb, nb - 1, 40}[r.Intn(5)]
+			if cn < 16 {
+				cn = 16
+			}
+			out = append(out, RunConfig{Prop: prop, Workflow: WSingle, NumByte: nb, Workers: workerChoices[r.Intn(len(workerChoices))], Policy: genPolicy(r, 50),
+				Stream: prfStream(r), Chunk: ChunkSpec{Kind: "fixed", K: 1 + nb/(2+r.Intn(2))}, Fault: FaultSpec{Kind: "none"}, Runners: RunnerSpec{Mode: "scripted"}, ReadYield: 1,
+				Companion: []PreludeSpec{{Workflow: WSingle, NumByte: cn, Stream: StreamSpec{Kind: "const", Byte: []int{0, 0xff}[r.Intn(2)]}}},
+				Fresh: i%4 != 3, Note: "overlapping-single-shot"})
 		}
 		nsingle := 300
 		if thorough {
@@ -703,6 +786,23 @@ func Plan(prop, tier string, seed uint64) []RunConfig {
 	for i := range out {
 		capReadYield(&out[i])
 	}
+	// a sample of the cases runs in a process of its own (first use of the
+	// library in that process): preferably cases with a history or a companion
+	fr := simctl.NewRand(simctl.Mix(seed, 0xf5e5))
+	budget := 48
+	if thorough {
+		budget = 1500
+	}
+	if len(out) > 0 {
+		stride := len(out)/budget + 1
+		for i := fr.Intn(stride); i < len(out) && budget > 0; i += 1 + fr.Intn(2*stride) {
+			if out[i].Runners.Mode == "real" && Info(out[i].Workflow).SampleBytes > 2500 {
+				continue
+			}
+			out[i].Fresh = true
+			budget--
+		}
+	}
 	return out
 }
 
@@ -746,6 +846,18 @@ func singleCase(prop string, nb int, r *simctl.Rand) RunConfig {
 	if st.Kind != "const" && st.Kind != "periodic" && r.Intn(8) == 0 {
 		genCarrier(&c, r, false)
 	}
+	if c.Carrier == "" && r.Intn(6) == 0 {
+		// another single-shot detection overlaps this one (on its own source):
+		// with a chunked source it runs between two of our reads
+		cn := []int{16, 40, nb, nb + 1 + r.Intn(64), 4096, 16 + r.Intn(8000)}[r.Intn(6)]
+		if cn < 16 {
+			cn = 16
+		}
+		c.Companion = []PreludeSpec{{Workflow: WSingle, NumByte: cn, Stream: StreamSpec{Kind: []string{"const", "prf"}[r.Intn(2)], Seed: r.Uint64(), Byte: []int{0, 0xff}[r.Intn(2)]}}}
+		if c.Chunk.Kind == "full" && nb > 1 {
+			c.Chunk = ChunkSpec{Kind: "fixed", K: 1 + nb/2}
+		}
+	}
 	return c
 }
 
@@ -776,6 +888,9 @@ func planC14(prop string, thorough bool, r *simctl.Rand) []RunConfig {
 		if wi.SampleBytes == 2500 && r.Intn(4) == 0 {
 			// the device was healthy during an earlier detection and is stuck now
 			c.Prelude = []PreludeSpec{{Workflow: w, Stream: StreamSpec{Kind: "prf", Seed: r.Uint64()}}}
+		} else if wi.SampleBytes == 2500 && r.Intn(4) == 0 {
+			// another detection of the same kind runs at the same time on a healthy device
+			c.Companion = []PreludeSpec{{Workflow: w, Stream: StreamSpec{Kind: "prf", Seed: r.Uint64()}}}
 		}
 		out = append(out, c)
 	}
